@@ -856,6 +856,17 @@ func (a AssignInstr) Execute(env *Zlisp) error {
 	if err != nil {
 		return err
 	}
+	err = a.assign(env, lhs, rhs)
+	if err != nil {
+		return err
+	}
+	// like def with a plain symbol target, the form has a value:
+	// the value that was assigned.
+	env.datastack.PushExpr(rhs)
+	return nil
+}
+
+func (a AssignInstr) assign(env *Zlisp, lhs Sexp, rhs Sexp) (err error) {
 	switch x := lhs.(type) {
 	case *SexpSymbol:
 		return env.LexicalBindSymbol(x, rhs)
